@@ -1,6 +1,8 @@
 import props_parser
 import props_lalr
 import props_lexer
+import props_tables
+import props_classes
 CHECKS = {
     "C01": props_parser.c01,
     "C03": props_parser.c03,
@@ -12,4 +14,6 @@ CHECKS = {
     "C07": props_lexer.c07,
     "C08": props_lexer.c08,
     "C11": props_lexer.c11,
+    "C10": props_tables.c10,
+    "C15": props_classes.c15,
 }
